@@ -7,11 +7,15 @@ use std::task::Poll;
 use std::time::Duration;
 
 use bytes::Bytes;
-use h3::quic::{Connection as _, RecvStream as _};
+use h3::quic::RecvStream as _;
 use quinn::crypto::rustls::{QuicClientConfig, QuicServerConfig};
 use rustls::pki_types::{CertificateDer, PrivateKeyDer};
 
 fn endpoints() -> (quinn::Endpoint, quinn::Endpoint, SocketAddr) {
+    endpoints_with(None)
+}
+
+fn endpoints_with(stream_window: Option<u32>) -> (quinn::Endpoint, quinn::Endpoint, SocketAddr) {
     let cert = rcgen::generate_simple_self_signed(vec!["localhost".into()]).unwrap();
     let (cert_der, key): (CertificateDer<'static>, PrivateKeyDer<'static>) =
         (cert.cert.into(), PrivateKeyDer::Pkcs8(cert.signing_key.serialize_der().into()));
@@ -22,7 +26,12 @@ fn endpoints() -> (quinn::Endpoint, quinn::Endpoint, SocketAddr) {
         .with_single_cert(vec![cert_der.clone()], key)
         .unwrap();
     crypto.alpn_protocols = vec![b"h3".to_vec()];
-    let server_config = quinn::ServerConfig::with_crypto(Arc::new(QuicServerConfig::try_from(crypto).unwrap()));
+    let mut server_config = quinn::ServerConfig::with_crypto(Arc::new(QuicServerConfig::try_from(crypto).unwrap()));
+    if let Some(w) = stream_window {
+        let mut t = quinn::TransportConfig::default();
+        t.stream_receive_window(w.into());
+        server_config.transport = Arc::new(t);
+    }
     let server = quinn::Endpoint::server(server_config, "[::1]:0".parse().unwrap()).unwrap();
     let addr = SocketAddr::new(Ipv6Addr::LOCALHOST.into(), server.local_addr().unwrap().port());
     let mut roots = rustls::RootCertStore::empty();
@@ -82,12 +91,75 @@ async fn c17_recv_id_while_read_pending() -> i32 {
     rc
 }
 
+/// A frame-sized buffer (64 KiB, patterned bytes) is handed to the adapter's SendStream while the peer's stream receive
+/// window is tiny (1 KiB): quinn accepts the bytes in many partial writes with Pending in between. Three buffers are sent
+/// one after the other (send_data, then poll_ready until Ready), the stream is finished; the peer, a plain quinn reader,
+/// must receive exactly the concatenation.
+async fn c17_partial_writes() -> i32 {
+    use h3::quic::{OpenStreams as _, SendStream as _};
+    let (server, client, addr) = endpoints_with(Some(1024));
+    let accept = tokio::spawn(async move { server.accept().await.unwrap().await.unwrap() });
+    let cconn = client.connect(addr, "localhost").unwrap().await.unwrap();
+    let sconn = accept.await.unwrap();
+    let reader = tokio::spawn(async move {
+        let mut recv = sconn.accept_uni().await.unwrap();
+        let mut got = Vec::new();
+        let mut buf = vec![0u8; 4096];
+        loop {
+            match recv.read(&mut buf).await {
+                Ok(Some(n)) => got.extend_from_slice(&buf[..n]),
+                Ok(None) => break,
+                Err(_) => break,
+            }
+            tokio::time::sleep(Duration::from_micros(200)).await;
+        }
+        (got, sconn)
+    });
+    let mut conn = h3_quinn::Connection::new(cconn);
+    let mut send: h3_quinn::SendStream<Bytes> = poll_fn(|cx| <h3_quinn::Connection as h3::quic::OpenStreams<Bytes>>::poll_open_send(&mut conn, cx))
+        .await
+        .expect("open_send");
+    let mut want = Vec::new();
+    let mut refused_overlap = true;
+    for round in 0..3u8 {
+        let payload: Vec<u8> = (0..65536u32).map(|i| (i as u8) ^ round.wrapping_mul(37)).collect();
+        // a DATA frame: type 0x00, length 65536 as a 4-byte varint, payload
+        want.extend_from_slice(&[0x00, 0x80, 0x01, 0x00, 0x00]);
+        want.extend_from_slice(&payload);
+        send.send_data(h3::proto::frame::Frame::Data(Bytes::from(payload))).expect("send_data on an idle stream");
+        // while the write is unfinished a second buffer must be refused
+        let first = poll_fn(|cx| Poll::Ready(send.poll_ready(cx).is_pending())).await;
+        if first && send.send_data(h3::proto::frame::Frame::Data(Bytes::from_static(b"interleaved"))).is_ok() {
+            refused_overlap = false;
+        }
+        let r = tokio::time::timeout(Duration::from_secs(20), poll_fn(|cx| send.poll_ready(cx))).await;
+        if !matches!(r, Ok(Ok(()))) {
+            println!("poll_ready did not complete: {:?}", r.map(|x| x.map_err(|e| format!("{:?}", e))));
+            break;
+        }
+    }
+    let _ = poll_fn(|cx| send.poll_finish(cx)).await;
+    let (got, _keep) = tokio::time::timeout(Duration::from_secs(20), reader).await.expect("reader ends").unwrap();
+    println!("handed to the adapter: {} bytes; received by the peer: {} bytes; identical: {}; overlapping send_data refused: {}", want.len(), got.len(), got == want, refused_overlap);
+    if got != want {
+        let at = got.iter().zip(want.iter()).position(|(a, b)| a != b).unwrap_or(usize::min(got.len(), want.len()));
+        println!("REPRODUCED: the peer did not receive the bytes handed to the adapter exactly once and in order (first difference at byte {})", at);
+        return 1;
+    }
+    if !refused_overlap {
+        println!("REPRODUCED: send_data was accepted while an earlier write was unfinished");
+        return 1;
+    }
+    0
+}
+
 fn main() {
     let args: Vec<String> = std::env::args().collect();
     let rt = tokio::runtime::Builder::new_current_thread().enable_all().build().unwrap();
     std::panic::set_hook(Box::new(|_| {}));
     let rc = match args.get(1).map(|s| s.as_str()) {
         Some("c17_recv_id_while_read_pending") => rt.block_on(c17_recv_id_while_read_pending()),
+        Some("c17_partial_writes") => rt.block_on(c17_partial_writes()),
         _ => {
             eprintln!("usage: h3-verif-replay-quinn c17_recv_id_while_read_pending");
             2
